@@ -17,6 +17,7 @@ import (
 	"strconv"
 	"strings"
 	"sync"
+	"sync/atomic"
 	"testing"
 	"time"
 
@@ -230,6 +231,9 @@ type monitor struct {
 	run func(t *testing.T, sc Scenario, res *Result)
 	// finish, if set, runs once after all scenarios (statistical monitors).
 	finish func(cfg runCfg, res *Result)
+	// scenarioLimit bounds one scenario (0 = 300s): when exceeded the shard dumps its goroutines and exits
+	// without a result, the runner then re-runs that scenario alone (only a repeatable hang is a violation)
+	scenarioLimit time.Duration
 }
 
 type runCfg struct {
@@ -309,7 +313,25 @@ func TestVerif(t *testing.T) {
 	cfg := runCfg{tier: *fTier, seed: *fSeed, shard: *fShard, nshards: *fNShards, scale: *fScale}
 	res := newResult()
 	scs := mon.scenarios(cfg)
+	var lastProgress atomic.Int64
+	lastProgress.Store(time.Now().UnixNano())
+	limit := mon.scenarioLimit
+	if limit == 0 {
+		limit = 300 * time.Second
+	}
+	go func() {
+		for {
+			time.Sleep(time.Second)
+			if time.Since(time.Unix(0, lastProgress.Load())) > limit {
+				fmt.Fprintf(os.Stderr, "WATCHDOG: a scenario of %s is running for more than %v; goroutine dump follows\n", *fProp, limit)
+				buf := make([]byte, 1<<20)
+				os.Stderr.Write(buf[:runtime.Stack(buf, true)])
+				os.Exit(3)
+			}
+		}
+	}()
 	for _, sc := range scs {
+		lastProgress.Store(time.Now().UnixNano())
 		sc.Prop = *fProp
 		res.cur = sc
 		if *fOut != "" {
